@@ -65,6 +65,16 @@ func (rn *RunNode) Deliver(e interface{}) (out Out) {
 	return out
 }
 
+// Elapse lets d of virtual time pass in the Run loop: the clock is advanced and whatever timers or tickers the
+// processor has armed and that are due by then fire (the harness does not decide which); then quiescence.
+func (rn *RunNode) Elapse(d vtime.Duration) (out Out) {
+	vtime.Advance(d)
+	vtime.FireDue("rocessor")
+	rn.quiesce()
+	rn.drain(&out)
+	return out
+}
+
 func (rn *RunNode) Close() {
 	rn.cancel()
 	<-rn.done
